@@ -471,7 +471,9 @@ fn cfi_space() -> Space {
     let platforms = [md::PlatformId::Linux as u32, md::PlatformId::VER_PLATFORM_WIN32_NT as u32, md::PlatformId::MacOs as u32, md::PlatformId::Ios as u32, md::PlatformId::Android as u32];
     let cfas = ["{sp} -8 +", "{sp}", "{sp} 1 +", "{sp} 8 +", "{sp} 4096 +", "0", "18446744073709551615", "{sp} ^"];
     // PINGPONG: two records whose constant return addresses point into each other's range
-    let ras = ["4096", ".cfa -8 + ^", "4198416", "0", ".cfa ^", "18446744073709551615", "PINGPONG"];
+    // the last five: names that are almost, but not, registers of some CPU (an ABI alias no table has, one past the
+    // numbered registers, another case, registers of another class)
+    let ras = ["4096", ".cfa -8 + ^", "4198416", "0", ".cfa ^", "18446744073709551615", "PINGPONG", "$s8 0 +", "x31 0 +", "r16 0 +", "$RSP 0 +", "$xmm0 $st0 +"];
     let stacks: [usize; 4] = [0, 8, 64, 4096];
     // where the context's sp lies: inside the stack memory, or a page below it
     let sp_wheres: u64 = 2;
